@@ -473,6 +473,30 @@ func builtinModels() map[string]modelFn {
 	m["time.Parse"] = timeParse
 	m["time.ParseInLocation"] = timeParse
 
+	// Date header: formatting real time is outside every claim; a fixed well-formed HTTP-date is used
+	m[hertz+"internal/bytesconv.AppendHTTPDate"] = func(e *Engine, st *State, c *callCtx) {
+		date := e.constString("Mon, 02 Jan 2006 15:04:05 GMT")
+		b := e.prog.ImportedPackage("bytes")
+		_ = b
+		dst := c.args[0].(SliceVal)
+		// append(dst, date...)
+		add := e.strBytes(st, date)
+		if dst.obj != 0 && dst.len+len(add) <= dst.cap {
+			wo := e.wobj(st, dst.obj)
+			copy(wo.slots[dst.off+dst.len:], add)
+			dst.len += len(add)
+			e.finish(st, c, dst)
+			return
+		}
+		slots := append(append([]Value(nil), e.sliceSlots(st, dst)...), add...)
+		id := e.allocMem(st, slots, "date")
+		e.finish(st, c, SliceVal{obj: id, len: len(slots), cap: len(slots), esz: 1})
+	}
+	m[hertz+"pkg/protocol.UpdateServerDate"] = func(e *Engine, st *State, c *callCtx) {
+		fn := e.prog.ImportedPackage(hertz + "pkg/protocol").Func("refreshServerDate")
+		e.callFunction(st, fn, nil, nil, c.ret)
+	}
+
 	// ----- mcache -----
 	m["github.com/bytedance/gopkg/lang/mcache.Malloc"] = func(e *Engine, st *State, c *callCtx) {
 		n := e.argInt(st, c.args[0], "mcache.Malloc size")
